@@ -116,8 +116,8 @@ def per_key(cases, n, pred=None):
         idx = bykey[k]
         need = n - count.get(k, 0)
         if need <= 0: continue
-        step = max(1, len(idx) // need)
-        for i in idx[::step][:need]:
+        import random
+        for i in random.Random(vlib.seed() * 131 + len(k)).sample(idx, min(need, len(idx))):
             if i not in chosen:
                 chosen.append(i)
                 for kk in ckeys(cases[i]): count[kk] = count.get(kk, 0) + 1
